@@ -33,7 +33,7 @@ XPATH_FRAGMENTS = ['substring(%s, %s, %s)', 'format-number(%s, %s)', 'translate(
 def hostile_xpath(r, depth=0):
     k = r.random()
     if depth > 4 or k < 0.3:
-        return r.choice(HOSTILE_NUMBERS + HOSTILE_STRINGS + ['.', '..', '/', '//*', '@*', '*', 'text()', '$undefined', '$gp', 'node()', 'processing-instruction()', "'x'", '1', 'true()', 'false()', 'position()', 'last()'])
+        return r.choice(HOSTILE_NUMBERS + HOSTILE_STRINGS + ['.', '..', '/', '//*', '@*', '*', 'text()', '$undefined', '$gp', 'node()', 'processing-instruction()', "'x'", '1', 'true()', 'false()', 'position()', 'last()', '-' * r.choice([1, 2, 41, 42, 43, 100]), '(' * r.choice([1, 30]), '/' * r.choice([3, 50]), '|' , '[', '*' * r.choice([2, 40])])
     f = r.choice(XPATH_FRAGMENTS)
     n = f.count('%s')
     return f % tuple(hostile_xpath(r, depth + 1) for _ in range(n))
